@@ -108,10 +108,10 @@ fn mul_exact_i32_operands() {
 #[kani::proof]
 #[kani::unwind(2)]
 #[kani::stub(alloc::fmt::format, empty_format)]
-fn divmod_euclid_i16() {
+fn divmod_euclid_i8() {
     let corner: bool = kani::any();
-    let a: i128 = if corner { i128::MIN } else { kani::any::<i16>() as i128 };
-    let b: i128 = if corner { -1 } else { kani::any::<i16>() as i128 };
+    let a: i128 = if corner { i128::MIN } else { kani::any::<i8>() as i128 };
+    let b: i128 = if corner { -1 } else { kani::any::<i8>() as i128 };
     let (x, y) = (v(a), v(b));
     let q = out(floor_div(&x, &y));
     let r = out(rem(&x, &y));
